@@ -503,6 +503,9 @@ class GateMemoizer:
         def make_context_entry(arg):
             if isinstance(arg, str):
                 return context.get(arg)
+            elif isinstance(arg, (list, tuple)):
+                # e.g. an array_item: what its identifiers denote matters too
+                return tuple(make_context_entry(a) for a in arg)
             else:
                 return None
 
